@@ -186,7 +186,10 @@ def plan_c17(prop, tier, seed, t0):
     os.makedirs(work)
     build_s = V.build_harness()
     mc, cases = plans.c18_cases(work, quick)
-    scenarios = c17_scenarios(seed, quick, cases, plans.call, plans.scn) + plans.hostile_token_scenarios(seed)
+    import plan_push
+    # (real clock, with the push loop running: endpoints that are accepted but are no URLs)
+    weird = [s for s in plan_push.c14_scenarios([], seed, quick, plans.call, plans.scn) if s["id"] == "c14-weird-endpoints"]
+    scenarios = c17_scenarios(seed, quick, cases, plans.call, plans.scn) + plans.hostile_token_scenarios(seed) + weird
     scn_path = os.path.join(work, "scenarios.ndjson")
     V.write_scenarios(scn_path, scenarios)
     traces = V.dvh_replay(scn_path, os.path.join(work, "replay"), 8)
